@@ -22,6 +22,7 @@ new(v as u16) == v for every variant) and the 'missing frame ⇒ Err' discipline
 result goes through ok_or_else + two `?`) are decided from shapes and CFG paths; extensions never
 reach a raw header and are Default on decode.
 Serde helper attributes of the raw header types are read from the definition's source lines (the compiler drops them when lowering) and the derived impls may contain no custom (de)serialisation hook.
+Total decoder: the panic inventory of the three decoders holds only constant in-bounds indexing of the 8-byte preamble buffer (re-checked).
 """
 TRUSTED = ["serde/bincode round-trip of String, HashMap<String,String>, u16 (fixed-int little-endian default config)",
            "tokio-util LengthDelimitedCodec implements the configured length prefix",
@@ -162,12 +163,9 @@ def run(cx):
             s = strip_identity(t)
             if s[0] == "call" and name_matches(s[1], "ops::index::Index::index") and strip_identity(s[2][0])[0] == "repeat":
                 r = strip_identity(s[2][1])
-                if r[0] == "call" and name_matches(r[1], "RangeInclusive::new"):
-                    return ("range", int_of(r[2][0]), int_of(r[2][1]))
-                if r[0] == "agg" and r[2].endswith("range::Range::Range"):
-                    return ("range", int_of(r[3][0]), int_of(r[3][1]) - 1)
-                if r[0] == "agg" and r[2].endswith("range::RangeTo::RangeTo"):
-                    return ("range", 0, int_of(r[3][0]) - 1)
+                rb = range_bounds(r, 8)
+                if rb is not None:
+                    return ("range", rb[0], rb[1] - 1)
             if s[0] == "index" and strip_identity(s[1])[0] == "repeat" and s[2].isdigit():
                 return ("elem", int(s[2]))
             if s[0] == "agg" and s[1] == "array" and s[3]:
@@ -509,3 +507,13 @@ def run(cx):
                         if any(a and (a.startswith("anemo::types::request::") or a.startswith("anemo::types::response::")) for a in adts):
                             ob.fail("refuted", f"codec-path/in-place-write/{owner_path(prog, b)}/{'.'.join(str(x) for x in names)}",
                                     f"{b.path} writes message field {names} in place on the codec path", b.path, b.loc(i))
+
+    with cx.ob("C07.7", "R-PANIC", "total decoder: the panic inventory of the three decoders (read_version_frame, read_request, read_response) and everything they call in the workspace holds only constant, in-bounds indexing of the 8-byte preamble buffer") as ob:
+        from .c06 import const_index_ok, bounds_assert_ok
+        rv = f"{WIRE}::read_version_frame::{{closure#0}}"
+        allow = {f"{rv}/call:Index::index#0": ("constant range inside the 8-byte preamble buffer", const_index_ok)}
+        for n_ in range(3):
+            allow[f"{rv}/assert:BoundsCheck#{n_}"] = ("constant index < 8", bounds_assert_ok)
+        ents = [f"{WIRE}::read_version_frame", f"{WIRE}::read_request", f"{WIRE}::read_response"]
+        reach, sites, used = check_panic_inventory(ob, prog, ents, allow, key_prefix="decoder-panic")
+        ob.floor(len(reach), 8, "workspace bodies reachable from the decoders")
